@@ -17,7 +17,7 @@
   subsequently read" (`Resp` carries status and error code only) and "requests that only read" (reads
   are not `Op`s; they do not touch the state by construction).
 -/
-import Placement.Lemmas.GenCons
+import Placement.Lemmas.GenClear
 
 namespace Placement.Props.C10
 open Placement Placement.Hier Placement.Gens
@@ -210,6 +210,24 @@ example : Uniq exDb ∧ (step exCfg exDb (.allocPut 39 exPut)).2.ok = true ∧ e
     ((step exCfg exDb (.allocPut 39 exPut)).1.consByUuid 100).map (·.gen) = some 4 ∧
     ((step exCfg exDb (.allocPut 39 { exPut with uuid := 101, gen := none })).1.consByUuid 101).map (·.gen) = some 1 :=
   ⟨exDb_uniq, by decide, by simp [exPut], by decide, by decide⟩
+
+/-- `PUT /allocations/{consumer}` with an empty body (from 1.28: remove all allocations), in a state
+without dangling records (C08) in which consumers exist only while they hold allocations (C12): the
+consumer is one generation further or - the normal outcome - its record is gone; a consumer that did
+not exist is not left behind. -/
+theorem alloc_clear_bumps_consumer (cfg : Config) {db : DB R} (hU : Uniq db) (hRI : RI db) (hCI : ConsIff db)
+    (mv : Nat) (c : ConsumerReq) (hok : (step cfg db (.allocPut mv c)).2.ok = true) (he : c.allocs = []) :
+    (step cfg db (.allocPut mv c)).1.consByUuid c.uuid = none ∨
+    ∃ row, (step cfg db (.allocPut mv c)).1.consByUuid c.uuid = some row ∧
+      row.gen = (((db.consByUuid c.uuid).map (·.gen)).getD 0) + 1 :=
+  allocPut_clear_consumer cfg hU.consUuid hok he (clear_side_condition hRI hCI c.uuid)
+
+example : Uniq exDb ∧ RI exDb ∧ ConsIff exDb ∧
+    (step exCfg exDb (.allocPut 39 { exPut with allocs := [] })).2.ok = true ∧
+    (step exCfg exDb (.allocPut 39 { exPut with allocs := [] })).1.consByUuid 100 = none := by
+  refine ⟨exDb_uniq, ?_, ?_, by decide, by decide⟩
+  · constructor <;> simp [exDb]
+  · intro u; simp [exDb]
 
 /-- The same for every consumer entry (with a non-empty body) of a successful `POST /allocations`. -/
 theorem alloc_post_bumps_consumers (cfg : Config) {db : DB R} (hU : Uniq db) (mv : Nat) (cs : List ConsumerReq)
